@@ -903,6 +903,11 @@ int sim_faults_fired(void) {
 	}
 	return n;
 }
+int sim_fault_fired_op(int op) {
+	int n = 0;
+	for (int i = 0; i < S.nfaults; i++) if (S.faults[i].op == op) n += S.faults[i].fired;
+	return n;
+}
 int sim_fault_fired_site(const char *site) {
 	int n = 0;
 	for (int i = 0; i < S.nfaults; i++) if (0 == strcmp(S.faults[i].site, site)) n += S.faults[i].fired;
